@@ -86,6 +86,7 @@ func checkC08() *rtCheck {
 		Prop: "C08",
 		Rule: "specs from the views profile (result types with 1-3 views, nested result types with per-attribute view overrides, collections, recursive references, fixed views); per method and per defined view the stub returns (result, view) with full/random/minimal values; one response per view is relabelled at the tap with every other defined view and with undefined names. Oracle = reference projection from the spec's views. non-trivial = decided exchange of a viewed method; distinct = (feature signature, method, view, class, shape)",
 		Assume: []string{"an attribute outside the view whose Go field cannot be nil (required or defaulted primitive) counts as unset when it holds its zero value",
+			"an attribute outside the view that declares a default may show that default on the client (unset + default, the rule C03 states for attributes the wire does not carry); it must be absent on the wire all the same",
 			"relabelling with another DEFINED view is only required not to crash"},
 		Profiles: []string{"views"}, Specs: [2]int{24, 300}, PerMethod: [2]int{0, 0},
 		MkCases: cases.Views, Judge: oracle.C08, Floor: [2]int{60, 2000},
